@@ -1,6 +1,36 @@
-(** C09 - placeholder until the recovery theorems land. *)
-From Coq Require Import List NArith.
-From BP Require Import Base.Field Model.VerifyTop.
-Theorem C09_verify_only_no_mask : forall (K : Fld) ofN (mb : member K), mask_of K ofN VerifyOnly mb = None.
-Proof. reflexivity. Qed.
-Print Assumptions C09_verify_only_no_mask.
+(** C09 — mask recovery returns the commitment's exact mask, position by position. *)
+From Coq Require Import List Arith NArith Bool.
+From BP Require Import Base.Field Model.Verifier Model.VerifyTop Proofs.MaskP Proofs.VerifyTopP.
+Import ListNotations.
+
+(** For a non-aggregated proof whose responses d1_k are the honest ones
+    (eta_k + d_k e + (alpha_k + z^2 r_k y^(N+1) + sum_j (e_j^2 dL_jk + e_j^-2 dR_jk)) e^2) for nonces given by
+    ANY function of (label, j, k) — in particular the seed derivation — and non-zero challenges, the
+    recovery formula of the verifier returns r_k for every k < T, in order, for every bit length, number
+    of rounds and extension degree. *)
+Theorem C09_mask_recovery_exact : forall (K : Fld), FldOk K ->
+  forall (nonce : nlabel -> option nat -> nat -> K) bits T (pf : vproof K) (ch : chals K) (rs : list K),
+  c_y ch <> f0 K -> c_z ch <> f0 K -> c_e ch <> f0 K -> T <= length (v_d1 pf) ->
+  (forall k, k < T -> nth k (v_d1 pf) (f0 K) = honest_d1 K nonce (c_y ch) (c_z ch) (c_e ch) (c_es ch) (1 * bits) (nth k rs (f0 K)) k) ->
+  forall k, k < T -> nth k (recover_mask K nonce bits 1 T pf ch) (f0 K) = nth k rs (f0 K).
+Proof. exact mask_recovery_exact. Qed.
+Print Assumptions C09_mask_recovery_exact.
+
+Theorem C09_mask_length : forall (K : Fld) nonce bits m T (pf : vproof K) ch,
+  T <= length (v_d1 pf) -> length (recover_mask K nonce bits m T pf ch) = T.
+Proof. exact recover_mask_length. Qed.
+Print Assumptions C09_mask_length.
+
+(** in a batch the i-th result belongs to the i-th proof *)
+Theorem C09_results_aligned : forall (K : Fld) ofN mode ms ws z masks,
+  fst (verify_chunk K ofN mode ms ws z) = Ok masks -> masks = map (mask_of K ofN mode) ms.
+Proof. exact chunk_results_aligned. Qed.
+Print Assumptions C09_results_aligned.
+
+(** no mask in verify-only mode, none without a seed *)
+Theorem C09_no_mask_verify_only : forall (K : Fld) ofN mb, mask_of K ofN VerifyOnly mb = None.
+Proof. exact mask_of_verify_only. Qed.
+Print Assumptions C09_no_mask_verify_only.
+Theorem C09_no_mask_without_seed : forall (K : Fld) ofN mode mb, mb_seeded K mb = false -> mask_of K ofN mode mb = None.
+Proof. exact mask_of_unseeded. Qed.
+Print Assumptions C09_no_mask_without_seed.
